@@ -787,6 +787,63 @@ def run(ctx: Any, prog: Program) -> None:
                     filt = conds + skips
                     ctx.check('C06.V20', not filt, vm, filt[0] if filt else c, f'{qual20}: elements of `{U(lp20.iter)[:40]}` are written only when `{U(filt[0].test)[:60] if filt else ""}`: the others are missing from the file '
                               '(and from the map read back), although they are part of the object graph', func=qual20, text=f'{qual20}: all of {U(lp20.iter)[:40]} written')
+    # ---- V23: numbered items are put in order as numbers -------------------------------------------------------------------------------------
+    # `sorted()` over a table keyed by index *strings* is lexicographic: '10' comes before '2'.  A reader that collects `"<index> <value>"`
+    # items under the text of the index (a key it also checks with isdecimal()/isdigit() or converts with int() elsewhere) and then sorts the
+    # table returns a permutation of what was written as soon as there are more than ten items.
+    ctx.rule('C06.V23', 'a reader never orders numbered items by the text of their index', floor=1)
+    n23 = 0
+    for q23, fl23 in vm.all_funcs().items():
+        for f23 in fl23:
+            numeric_text = {c.func.value.id for c in walk_no_nested(f23) if isinstance(c, ast.Call) and isinstance(c.func, ast.Attribute) and c.func.attr in ('isdecimal', 'isdigit', 'isnumeric') and isinstance(c.func.value, ast.Name)}
+            numeric_text |= {c.args[0].id for c in walk_no_nested(f23) if isinstance(c, ast.Call) and dotted(c.func) == 'int' and len(c.args) == 1 and isinstance(c.args[0], ast.Name)}
+            if not numeric_text:
+                continue
+            keyed = {t.value.id: t.slice.id for a in walk_no_nested(f23) if isinstance(a, ast.Assign) for t in a.targets
+                     if isinstance(t, ast.Subscript) and isinstance(t.value, ast.Name) and isinstance(t.slice, ast.Name) and t.slice.id in numeric_text}
+            # a key that was converted (`ind = int(ind_str)` ... `tbl[ind]`) is a different name, so `keyed` holds text keys only
+            for c in walk_no_nested(f23):
+                if isinstance(c, ast.Call) and dotted(c.func) in ('sorted', 'min', 'max') and c.args and not any(k.arg == 'key' for k in c.keywords):
+                    a0 = c.args[0]
+                    base = a0.func.value if isinstance(a0, ast.Call) and isinstance(a0.func, ast.Attribute) and a0.func.attr in ('items', 'keys') else a0
+                    if isinstance(base, ast.Name) and base.id in keyed:
+                        n23 += 1
+                        ctx.check('C06.V23', False, vm, c, f'{q23} orders `{base.id}` with `{U(c)[:50]}`, and its keys are the index *text* `{keyed[base.id]}`: with more than ten items \'10\' sorts before \'2\', so the items '
+                                  'come back in another order than they were written', func=q23, text=f'{q23}: `{base.id}` ordered numerically')
+    ctx.check('C06.V23', True, vm, vm.tree, f'{n23} orderings by index text found', func='<module>', text='orderings of tables keyed by index text examined')
+
+    # ---- V22: an optional per-vertex block is written whenever any of the values it carries is set ------------------------------------------
+    # `if any(<test on vert> for vert in self._disp_verts): <write blocks from vert.a, vert.b, ...>`: when the block is absent the reader leaves
+    # every one of those fields at its default, so the test has to look at every field the block carries - a value set in a field it does not
+    # look at is dropped together with the block.
+    ctx.rule('C06.V22', 'the presence test of an optional per-vertex block looks at every per-vertex field the block carries', floor=1)
+    ed22 = vm.func('Side._export_displacement')
+    n22 = 0
+    for if22 in [n for n in walk_no_nested(ed22) if isinstance(n, ast.If)]:
+        gens = [g for g in ast.walk(if22.test) if isinstance(g, ast.GeneratorExp) and len(g.generators) == 1 and isinstance(g.generators[0].target, ast.Name)
+                and isinstance(g.generators[0].iter, ast.Attribute) and g.generators[0].iter.attr == '_disp_verts']
+        if not gens:
+            continue
+        gv = gens[0].generators[0].target.id
+        tested = {a.attr for a in ast.walk(gens[0].elt) if isinstance(a, ast.Attribute) and isinstance(a.value, ast.Name) and a.value.id == gv}
+        carried: Set[str] = set()
+        for b in if22.body:
+            for c in ast.walk(b):
+                if isinstance(c, ast.Call) and isinstance(c.func, ast.Attribute) and c.func.attr.startswith('_export_') and len(c.args) >= 2 and isinstance(c.args[1], ast.Constant) and isinstance(c.args[1].value, str):
+                    carried.add(c.args[1].value)
+                if isinstance(c, (ast.ListComp, ast.GeneratorExp)) and len(c.generators) == 1 and isinstance(c.generators[0].target, ast.Name):
+                    lv = c.generators[0].target.id
+                    carried |= {a.attr for a in ast.walk(c.elt) if isinstance(a, ast.Attribute) and isinstance(a.value, ast.Name) and a.value.id == lv}
+                if isinstance(c, ast.For) and isinstance(c.target, ast.Name) and isinstance(c.iter, ast.Attribute) and c.iter.attr == '_disp_verts':
+                    carried |= {a.attr for x in c.body for a in ast.walk(x) if isinstance(a, ast.Attribute) and isinstance(a.value, ast.Name) and a.value.id == c.target.id}
+        if not carried:
+            continue
+        n22 += 1
+        missing = sorted(carried - tested)
+        ctx.check('C06.V22', not missing, vm, if22, f'the block written under `{U(if22.test)[:80]}` carries the per-vertex fields {sorted(carried)}, but the test only looks at {sorted(tested)}: a displacement whose '
+                  f'{missing} are set while {sorted(tested)} are at their defaults is exported without the block, and the values are gone after re-reading', func='Side._export_displacement', text='multiblend block written when any carried field is set')
+    ctx.shape('C06.V22', n22 >= 1, vm, ed22, 'no optional per-vertex block found in Side._export_displacement (the multiblend block confirmed by hand)', func='Side._export_displacement', text='optional per-vertex blocks')
+
     # ---- V21: a key the writer emits once per element is read by iteration --------------------------------------------------------------
     # `"visgroupid" "<id>"` is written in a loop over the memberships.  The Keyvalues single-value accessors (tree.int(key), tree[key],
     # find_key) return ONE occurrence (the last); only a loop over the children / find_all(key) sees all of them.
@@ -1412,6 +1469,9 @@ def elt_token_alternatives(elt: ast.AST, tokens_of_type: Dict[str, int]) -> Opti
 
 
 MUTANTS = [
+    {'id': 'strata_points_sorted_by_index_text', 'file': 'vmf.py', 'find': "        points: list[Optional[Vec]] = [None] * block.int('numpts')\n", 'replace': "        by_text: dict = {}\n        for child in block.find_all('point'):\n            ind_s, _, pos_s = child.value.partition(' ')\n            if ind_s.isdecimal():\n                by_text[ind_s] = pos_s\n        ordered = [p for _, p in sorted(by_text.items())]\n        points: list[Optional[Vec]] = [None] * block.int('numpts')\n", 'expect': 'C06.V23'},
+    {'id': 'multiblend_gate_blend_only', 'file': 'vmf.py', 'find': "            vert.multi_blend or vert.multi_alpha or vert.multi_colors is not None\n", 'replace': "            vert.multi_blend\n", 'expect': 'C06.V22'},
+    {'id': 'multiblend_gate_colours_only', 'file': 'vmf.py', 'find': "            vert.multi_blend or vert.multi_alpha or vert.multi_colors is not None\n", 'replace': "            vert.multi_colors is not None\n", 'expect': 'C06.V22'},
     {'id': 'solid_visgroupid_single_accessor', 'file': 'vmf.py', 'find': "            elif v.name == 'visgroupid':\n                try:\n                    visgroups.add(int(v.value))\n                except (ValueError, TypeError):\n                    pass\n", 'replace': "", 'extra': [{'file': 'vmf.py', 'find': "        return cls(\n            vmf_file,\n            solid_id,\n            sides,\n            visgroups,", 'replace': "        vis_one = tree.find_block('editor', or_blank=True).int('visgroupid', -1)\n        if vis_one != -1:\n            visgroups.add(vis_one)\n        return cls(\n            vmf_file,\n            solid_id,\n            sides,\n            visgroups,"}], 'expect': 'C06.V21'},
     {'id': 'output_delay_fixed_decimals', 'file': 'vmf.py', 'find': "            f'{self.delay:g}{sep}{self.times}\"\\n'", 'replace': "            f'{format_float(self.delay)}{sep}{self.times}\"\\n'", 'expect': 'C06.V3'},
     {'id': 'uvaxis_zero_scale_replaced', 'file': 'vmf.py', 'find': "            scale=float(vals[4]),\n", 'replace': "            scale=float(vals[4]) or 0.25,\n", 'expect': 'C06.V19'},
@@ -1422,7 +1482,7 @@ MUTANTS = [
     {'id': 'disp_scalars_written_with_plain_str', 'file': 'vmf.py', 'find': "            if isinstance(value, int):\n                # Scalars are parsed back as floats, give an int the same text as the re-parsed map would have.\n                value = float(value)\n", 'replace': "", 'expect': 'C06.V17'},
     {'id': 'multiblend_setters_bind_late', 'file': 'vmf.py', 'find': "_disprow_multiblend = [\n    (f'multiblend_color_{i}', _make_disprow_set_multiblend(i))\n    for i in range(4)\n]", 'replace': "_disprow_multiblend = []\nfor _i in range(4):\n    def _setter(vert: DispVertex, value: Vec) -> None:\n        assert vert.multi_colors is not None\n        vert.multi_colors[_i] = value\n    _disprow_multiblend.append((f'multiblend_color_{_i}', _setter))", 'expect': 'C06.V16'},
     {'id': 'world_comments_not_exported', 'file': 'vmf.py', 'find': "        if self.comments:\n            buffer.write(f'{ind}\\t\\t\"comments\" \"{escape_text(self.comments)}\"\\n')\n        buffer.write(ind + '\\t}\\n')\n\n        buffer.write(ind + '}\\n')", 'replace': "        if self.comments and not _is_worldspawn:\n            buffer.write(f'{ind}\\t\\t\"comments\" \"{escape_text(self.comments)}\"\\n')\n        buffer.write(ind + '\\t}\\n')\n\n        buffer.write(ind + '}\\n')", 'expect': 'C06.V15'},
-    {'id': 'multiblend_outside_dispinfo', 'file': 'vmf.py', 'find': "        buffer.write(f'{ind}\\t\\t}}\\n')\n\n        if disp_multiblend and any(vert.multi_blend for vert in self._disp_verts):", 'replace': "        buffer.write(f'{ind}\\t\\t}}\\n{ind}\\t}}\\n')\n\n        if disp_multiblend and any(vert.multi_blend for vert in self._disp_verts):",
+    {'id': 'multiblend_outside_dispinfo', 'file': 'vmf.py', 'find': "        buffer.write(f'{ind}\\t\\t}}\\n')\n\n        if disp_multiblend and any(\n            vert.multi_blend or vert.multi_alpha or vert.multi_colors is not None\n            for vert in self._disp_verts\n        ):", 'replace': "        buffer.write(f'{ind}\\t\\t}}\\n{ind}\\t}}\\n')\n\n        if disp_multiblend and any(\n            vert.multi_blend or vert.multi_alpha or vert.multi_colors is not None\n            for vert in self._disp_verts\n        ):",
      'extra': [{'file': 'vmf.py', 'find': "        # Close the dispinfo block - the multiblend data lives inside it.\n        buffer.write(f'{ind}\\t}}\\n')\n", 'replace': ""}], 'expect': 'C06.V9'},
     {'id': 'entities_two_passes', 'file': 'vmf.py', 'find': "        for item in tree:\n            if item.name == 'entity':\n                map_obj.add_ent(\n                    Entity.parse(map_obj, item, False)  # hidden=False\n                )\n            elif item.name == 'hidden':\n                for ent in item:\n                    map_obj.add_ent(\n                        Entity.parse(map_obj, ent, True)  # hidden=True\n                    )\n",
      'replace': "        for item in tree.find_all('Entity'):\n            map_obj.add_ent(\n                Entity.parse(map_obj, item, False)  # hidden=False\n            )\n        for hidden_ent in tree.find_all('hidden'):\n            for ent in hidden_ent:\n                map_obj.add_ent(\n                    Entity.parse(map_obj, ent, True)  # hidden=True\n                )\n", 'expect': 'C06.V12'},
